@@ -1041,11 +1041,15 @@ func gatherSecuritySchemes(securitySchemes map[string]spec.SecurityScheme, appNa
 // or an operation, without any modification. This is used to generate documentation.
 func securityRequirements(orig []map[string][]string) (result []analysis.SecurityRequirement) {
 	for _, r := range orig {
-		for k, v := range r {
-			result = append(result, analysis.SecurityRequirement{Name: k, Scopes: v})
+		names := make([]string, 0, len(r))
+		for k := range r {
+			names = append(names, k)
+		}
+		sort.Strings(names)
+		for _, k := range names {
+			result = append(result, analysis.SecurityRequirement{Name: k, Scopes: r[k]})
 		}
 	}
-	// TODO(fred): sort this for stable generation
 	return
 }
 
